@@ -631,8 +631,19 @@ func (vlog *valueLog) open(db *DB) error {
 		if vlog.opt.ReadOnly {
 			flags = os.O_RDONLY
 		}
-		if err := lf.open(vlog.fpath(fid), flags,
-			2*vlog.opt.ValueLogFileSize); err != nil {
+		err := lf.open(vlog.fpath(fid), flags, 2*vlog.opt.ValueLogFileSize)
+		if err == z.NewFile {
+			// The file was empty: a crash hit deleteLogFile between truncating the file to zero
+			// and unlinking it (or createVlogFile before the file was sized). It has just been
+			// re-initialised; only the head file is needed.
+			if fid != vlog.maxFid && !vlog.opt.ReadOnly {
+				if derr := lf.Delete(); derr != nil {
+					return y.Wrapf(derr, "while trying to delete empty file: %s", lf.path)
+				}
+				delete(vlog.filesMap, fid)
+				continue
+			}
+		} else if err != nil {
 			return y.Wrapf(err, "Open existing file: %q", lf.path)
 		}
 		// We shouldn't delete the maxFid file.
